@@ -489,6 +489,9 @@ func runC19(res *Result, tier string, seed int64, replay string) {
 	_ = mjml.Render
 	c19TagCorrespondence(res, drv, tier, seed)
 	c19ScanCorrespondence(res, drv, tier, seed)
+	if replay == "" {
+		c19ClassCorrespondence(res, drv, tier, seed)
+	}
 }
 
 // c19ScanCorrespondence: the scanner over whole fragments — the real applyInlineStylesToHTML (verif export) against the Lean
